@@ -20,7 +20,8 @@ from typing import Any, Callable, Dict, Iterable, List, Optional, Sequence, Tupl
 VERIF = Path(__file__).resolve().parent.parent
 REPO = Path(os.environ.get("MLODA_REPO", "/repo"))
 LEAN = VERIF / "lean"
-EVID = VERIF / "evidence"
+# evidence of a run against anything but /repo itself (a patched scratch worktree: MLODA_REPO=...) must never replace the committed record
+EVID = VERIF / "evidence" if str(REPO) == "/repo" else VERIF / ".scratch" / "evidence_other_repo"
 REPLAYS = VERIF / "replays"
 CORPUS = VERIF / "corpus"
 LOCK = LEAN / ".build.lock"
